@@ -19,7 +19,8 @@ def run_stdio_script(steps: List[Any], *, chunks: Optional[List[Any]] = None,
                      reactive: Optional[Callable[[ScriptedProcess, bytes], None]] = None,
                      use: str = "stdio_client", env: Optional[Dict[str, str]] = None,
                      init_kwargs: Optional[Dict[str, Any]] = None,
-                     tie_seed: Optional[int] = None, drain_notifications: bool = True) -> Dict[str, Any]:
+                     tie_seed: Optional[int] = None, drain_notifications: bool = True,
+                     stdin_delay: float = 0.0) -> Dict[str, Any]:
     """steps: list of
         ("feed", chunk)            give the child's stdout one more chunk
         ("version", v)             client.set_protocol_version(v)
@@ -37,6 +38,7 @@ def run_stdio_script(steps: List[Any], *, chunks: Optional[List[Any]] = None,
 
     def factory(command, **kw):
         p = ScriptedProcess(list(chunks or []), hold_open=True)
+        p.stdin_delay = stdin_delay
         if reactive is not None:
             orig_send = p.stdin.send
 
@@ -79,6 +81,8 @@ def run_stdio_script(steps: List[Any], *, chunks: Optional[List[Any]] = None,
                         await write.send(st[1])
                     elif op == "settle":
                         await settle()
+                    elif op == "wait":
+                        await asyncio.sleep(st[1])
                     elif op == "eof":
                         proc.finish_stdout()
                     elif op == "close_write":
@@ -125,3 +129,97 @@ def run_stdio_script(steps: List[Any], *, chunks: Optional[List[Any]] = None,
     return res
 
 
+
+
+def run_multi_stdio(script: List[Any], *, tie_seed: Optional[int] = None) -> Dict[str, Any]:
+    """Several StdioClient objects in one process / one loop, alive at the same time or one after the other,
+    each owned by its own task (as independent sessions of an application would be).
+    script ops: ("open", name) ("feed", name, chunk) ("send", name, obj) ("settle",) ("close", name).
+    Returns {name: {"read": [...], "notes": [...], "stdin": bytes}}."""
+    import importlib
+    SC = importlib.import_module("chuk_mcp.transports.stdio.stdio_client")
+    from chuk_mcp.transports.stdio.parameters import StdioParameters
+
+    out: Dict[str, Any] = {}
+
+    async def drain(stream, sink):
+        try:
+            async for m in stream:
+                sink.append(m)
+        except (anyio.ClosedResourceError, anyio.EndOfStream, anyio.BrokenResourceError):
+            pass
+
+    async def owner(name, q, ready):
+        rec = {"read": [], "notes": [], "stdin": b""}
+        out[name] = rec
+        holder = {}
+
+        def factory(command, **kw):
+            holder["proc"] = ScriptedProcess([], hold_open=True)
+            return holder["proc"]
+        try:
+            with OpenProcessPatch(factory):
+                client = SC.StdioClient(StdioParameters(command=f"scripted-{name}", args=[], env=None))
+                cm = client.__aenter__()
+                await cm
+            proc = holder["proc"]
+            try:
+                read, write = client.get_streams()
+                tasks = [asyncio.create_task(drain(read, rec["read"])),
+                         asyncio.create_task(drain(client.notifications, rec["notes"]))]
+                ready.set()
+                while True:
+                    op, arg, ack = await q.get()
+                    if op == "feed":
+                        proc.feed(arg)
+                    elif op == "send":
+                        await write.send(arg)
+                    elif op == "close":
+                        await settle()
+                        for t in tasks:
+                            t.cancel()
+                        rec["stdin"] = proc.stdin_bytes()
+                        ack.set()
+                        break
+                    ack.set()
+            finally:
+                await client.__aexit__(None, None, None)
+        except BaseException as e:  # noqa
+            rec["owner_error"] = repr(e)
+            ready.set()
+            raise
+
+    async def main():
+        live: Dict[str, Any] = {}
+
+        async def tell(name, op, arg=None):
+            ack = asyncio.Event()
+            live[name][0].put_nowait((op, arg, ack))
+            await ack.wait()
+
+        for st in script:
+            op = st[0]
+            if op == "open":
+                q: asyncio.Queue = asyncio.Queue()
+                ready = asyncio.Event()
+                t = asyncio.create_task(owner(st[1], q, ready), name=f"owner-{st[1]}")
+                live[st[1]] = (q, t)
+                await ready.wait()
+                await settle()
+            elif op in ("feed", "send"):
+                await tell(st[1], op, st[2])
+            elif op == "settle":
+                await settle()
+            elif op == "close":
+                await tell(st[1], "close")
+                await live.pop(st[1])[1]
+            else:
+                raise ValueError(op)
+        await settle()
+        for name in list(live):
+            await tell(name, "close")
+            await live.pop(name)[1]
+        return out
+
+    res, loop = run_virtual(main, tie_seed=tie_seed, max_iterations=3_000_000)
+    return res
